@@ -103,7 +103,7 @@ func replayOps(ops []op, verbose, skipKnown bool) error {
 			if err := f.Write(mp); err != nil {
 				return fmt.Errorf("step %d: write: %v", i, err)
 			}
-		case "snapshot":
+		case "snapshot", "snapshotWindow:end": // (a replay runs the window's snapshot after its write)
 			if err := f.Snapshot(); err != nil {
 				return fmt.Errorf("step %d: snapshot: %v", i, err)
 			}
